@@ -24,6 +24,7 @@ ASSUMPTIONS = ["frames are identified by xyz[i,0,0]; files have T<100 frames so 
 SPEC = 6
 # format -> (acceptable model variants: repaired first, then as-found), has_len, seekable
 FORMATS = {
+    "dcd0.dcd": ([1], True, True),   # DCD with NSET = 0 in its header (length from the file size)
     "h5": ([0], True, True), "xtc": ([2], True, True), "trr": ([6, 5], True, True), "dcd": ([1], True, True),
     "nc": ([4, 3], True, True), "mdcrd": ([1], False, True), "xyz": ([1], True, True),
     "lammpstrj": ([1], False, True), "dtr": ([1], True, True), "arc": ([1], False, False),
